@@ -1,8 +1,10 @@
 """C13 — histograms: Lean theorems (index in range, nearest centre, periodic congruence, weight conservation,
 normalisation, legacy auto range) + correspondence against HistogramNew / Histogram compiled from the working
 tree in a release-like build under ASan/UBSan (an out-of-range write aborts with a report)."""
-import glob, os
+import glob, os, sys
 import vlib, vbuild
+sys.path.insert(0, os.path.join(vlib.VERIF, "tools", "translate"))
+import tr_c13 as tr
 
 PROP = "C13"
 HARNESS = os.path.join(vlib.VERIF, "harness", "c13.cc")
@@ -40,7 +42,15 @@ def run_stream(ck, exe, name, args, seed, stdin=None):
 
 def run(tier, seed, replay=None):
     ck = vlib.Check(PROP, tier, seed)
+    tr_err = None
+    try:
+        ck.extra["translator"] = tr.translate()
+    except Exception as e:
+        tr_err = "translator could not read histogramnew.cc / histogram.cc: %r" % (e,)
     ob = vlib.lean_obligations(PROP, thorough=(tier == "thorough"))
+    if tr_err:
+        ob["ok"] = False
+        ob["failures"].append(tr_err)
     try:
         exe = build()
     except vbuild.BuildError as e:
